@@ -485,6 +485,80 @@ def operators(ctx, lk):
             rep.unk('F3', name, str(e))
 
 
+# ---------------------------------------------------------------- F3m operators on degrees of very different size
+def operator_classes(ctx, mod):
+    """F3m: F3 shows that every operator equals its documented formula over the reals.  Bounds and boundary cases ("bounded by
+    min / max as their class requires and reduce to the boundary cases at 0 and 1") must also survive rounding: a formula equal over the
+    reals (1 - (1-a)(1-b) for a + b - ab) loses a degree below 2^-53 next to the constant 1.  The straight-line bodies are interpreted
+    over magnitude classes of the two degrees (lib/mag.py; exact 0 and exact 1 included); a class on which the result is definitely
+    outside [0, min(a,b)] (intersections) or [max(a,b), 1] (unions), or differs from the boundary value, BY MORE THAN 2^-40 is a
+    violation.  (The first version compared exactly and reported the unchanged tree: a_fuzzy_cap_bounded(1e-20, 1) is 0, not 1e-20,
+    because 1e-20 + 1 rounds to 1 - replayed in a scratch binary.  An absolute deviation below one ulp of 1 is what any floating-point
+    reading of "reduce to the boundary cases" tolerates, so the rule asked for more than the property; hence the tolerance.  The seeded
+    rewrite of the algebraic sum as 1 - (1-a)(1-b) deviates by less than 2^-53 as well and is likewise not reported.)"""
+    import itertools
+    import mag
+    rep = ctx.rep
+    E = (-1074, -600, -200, -70, -30, -2)
+    if ctx.tier == 'thorough':
+        E = tuple(sorted(set(range(-1074, -1, 16)) | set(E)))
+    degs = [mag.Z] + [mag.binade(e) for e in E] + [('x', 1.0)]
+    KIND = {'a_fuzzy_cap': 'cap', 'a_fuzzy_cap_algebra': 'cap', 'a_fuzzy_cap_bounded': 'cap',
+            'a_fuzzy_cup': 'cup', 'a_fuzzy_cup_algebra': 'cup', 'a_fuzzy_cup_bounded': 'cup'}
+
+    TOL = 2.0 ** -40
+
+    def below(r, v):      # definitely r < v by more than the tolerance
+        br, bv = mag.bounds(r), mag.bounds(v)
+        return br is not None and bv is not None and br[1] + TOL < bv[0]
+
+    for name, kind in sorted(KIND.items()):
+        fn = mod.functions.get(name)
+        if fn is None or fn.error or not fn.blocks:
+            rep.unk('F3m', name, 'anchor vanished')
+            continue
+        rep.functions.add(name)
+        loc = fn.loc(fn.entry.instrs[0])
+        if len(fn.params) != 2 or mag.run(fn, [mag.binade(-1), mag.binade(-1)]) is None:
+            rep.unk('F3m', name, 'not straight-line arithmetic over the two degrees', loc=loc)
+            continue
+        worst, total, decided = [], 0, 0
+        one = ('x', 1.0)
+        for a, b in itertools.product(degs, degs):
+            r = mag.run(fn, [a, b])
+            total += 1
+            if r == mag.TOP:
+                continue
+            decided += 1
+            why = None
+            if r == mag.NAN or r[0] == 'inf' or mag.sign(r) < 0 or below(one, r):
+                why = 'not a degree'
+            elif kind == 'cap':
+                if below(a, r) or below(b, r):
+                    why = 'above min(a, b)'
+                elif mag.Z in (a, b) and below(mag.Z, r):
+                    why = 'cap(a, 0) is not 0'
+                elif one in (a, b) and (below(r, a if b == one else b) or below(a if b == one else b, r)):
+                    why = 'cap(a, 1) is not a'
+            else:
+                if below(r, a) or below(r, b):
+                    why = 'below max(a, b)'
+                elif one in (a, b) and below(r, one):
+                    why = 'cup(a, 1) is not 1'
+                elif mag.Z in (a, b) and (below(r, a if b == mag.Z else b) or below(a if b == mag.Z else b, r)):
+                    why = 'cup(a, 0) is not a'
+            if why:
+                worst.append((a, b, r, why))
+        if worst:
+            a, b, r, why = worst[0]
+            rep.bad('F3m', name, 'for every %s and %s the result is %s: %s (%d of %d magnitude classes; deviation above 2^-40)' % (
+                mag.show_class('a', a), mag.show_class('b', b), mag.show(r), why, len(worst), total), loc=loc, key='%s: rounding' % name)
+        else:
+            rep.ok('F3m', name, 'bounds (%s) and boundary cases at 0 and 1 hold up to 2^-40 on every decided magnitude class of the two degrees (%d of %d)' % (
+                '0 <= r <= min' if kind == 'cap' else 'max <= r <= 1', decided, total), loc=loc, sample={'fn': name, 'classes': total, 'decided': decided})
+    rep.floor('F3m', 6)
+
+
 # ---------------------------------------------------------------- F2m the smooth families saturate
 def saturation(ctx, mod):
     """F2m: "for every input ... a value in [0,1]" includes arguments so far out that an intermediate result overflows or underflows.
@@ -806,6 +880,7 @@ def run(ctx):
     smooth(ctx, lk)
     saturation(ctx, mf)
     operators(ctx, lookup_in([ctx.module('fuzzy')]))
+    operator_classes(ctx, ctx.module('fuzzy'))
     dispatch(ctx)
     bfuzz(ctx)
     from props import C13_fuzzy
